@@ -383,83 +383,114 @@ PREC_CLASS = {ast.BitOr: 1, ast.BitXor: 2, ast.BitAnd: 3, ast.LShift: 4, ast.RSh
               ast.Mult: 6, ast.MatMult: 6, ast.Div: 6, ast.Mod: 6, ast.FloorDiv: 6, ast.Pow: 8}
 
 
-def first_diff(a: ast.AST, b: ast.AST) -> Optional[Tuple[Any, Any, ast.AST, ast.AST]]:
-    """first difference in a parallel pre-order walk: (child_a, child_b, parent_a, parent_b) where the
-    parents are the innermost nodes of equal type that enclose the difference (None if equal)"""
-    if type(a) is not type(b):
-        return (a, b, a, b)
-    for f in a._fields:
-        if f in ("ctx", "kind"):
-            continue
-        x, y = getattr(a, f, None), getattr(b, f, None)
-        if isinstance(x, list) or isinstance(y, list):
-            if not (isinstance(x, list) and isinstance(y, list)) or len(x) != len(y):
-                return (x, y, a, b)
-            for p, q in zip(x, y):
-                if isinstance(p, (ast.operator, ast.unaryop, ast.boolop, ast.cmpop)) or p is None or q is None:
-                    if type(p) is not type(q):
-                        return (p, q, a, b)
-                    continue
-                if type(p) is not type(q):
-                    return (p, q, a, b)
-                d = first_diff(p, q)
-                if d is not None:
-                    return d
-        elif isinstance(x, (ast.operator, ast.unaryop, ast.boolop, ast.cmpop)):
-            if type(x) is not type(y):
-                return (x, y, a, b)
-        elif isinstance(x, ast.AST) or isinstance(y, ast.AST):
-            if type(x) is not type(y):
-                return (x, y, a, b)
-            d = first_diff(x, y)
-            if d is not None:
-                return d
-        else:
-            if type(x) is not type(y) or (x != y and not (x != x and y != y)):
-                return (a, b, a, b)
+def readback(src: str, cfg: Tuple[int, int, bool]) -> Tuple[str, str, Any]:
+    """('ok'|'cut'|'raise:<Exc>'|'syntax'|'differs', displayed text, result) for one source text"""
+    tree = ast.parse(src, mode="eval").body
+    if cfg[2] is False and cfg[0] != 0:
+        fresh_linewrap()
+    ans, r = run_impl(tree, *cfg)
+    if r is None:
+        return "raise:" + ans.split()[1], "", None
+    text, marker, _ = displayed_text(r)
+    if not r.is_complete:
+        return "cut", text, r
+    try:
+        shown_tree = ast.parse(text, mode="eval").body
+    except (SyntaxError, ValueError, MemoryError, RecursionError):
+        return "syntax", text, r
+    if norm_dump(shown_tree) == norm_dump(ast.parse(src, mode="eval").body):
+        return "ok", text, r
+    return "differs", text, r
+
+
+_MIN_CACHE: Dict[Tuple[str, Tuple[int, int, bool]], str] = {}
+
+
+DELEGATED = (ast.Compare, ast.IfExp, ast.Lambda, ast.Await, ast.NamedExpr, ast.ListComp, ast.SetComp, ast.DictComp,
+             ast.GeneratorExp, ast.JoinedStr, ast.Yield, ast.YieldFrom, ast.Attribute)
+
+
+def leaf_feature(tree: ast.AST) -> Optional[str]:
+    for n in ast.walk(tree):
+        if isinstance(n, ast.Constant):
+            v = n.value
+            if type(v) is int and v.bit_length() > 14000:
+                return "leaf:huge-int-ValueError"
+            if isinstance(v, bytes) and b"'" in v and b'"' not in v:
+                return "leaf:bytes-quote-unescaped"
+            if isinstance(v, str) and "\x00" in v:
+                return "leaf:nul-dropped"
+            if isinstance(v, (float, complex)) and (abs(v) == float("inf") or v != v):
+                return "leaf:float-overflow-inf"
     return None
 
 
-def classify(src_tree: ast.AST, shown: str, shown_tree: Optional[ast.AST]) -> str:
-    """coarse, deterministic kind of a read-back failure"""
-    nodes_ = list(ast.walk(src_tree))
-    if shown_tree is None:      # displayed text is not an expression at all
-        for n in nodes_:
-            if isinstance(n, ast.Constant) and isinstance(n.value, bytes) and b"'" in n.value and b'"' not in n.value:
-                return "leaf:bytes-quote-unescaped"
-        for n in nodes_:
-            if isinstance(n, ast.Subscript) and isinstance(n.slice, ast.Tuple) and not n.slice.elts:
-                return "tuple:empty-index"
-        for n in nodes_:
-            if isinstance(n, ast.Tuple) and len(n.elts) == 1 and isinstance(n.elts[0], ast.Starred):
-                return "tuple:singleton-comma-lost"
-        for n in nodes_:
-            if isinstance(n, ast.Constant) and isinstance(n.value, str) and "\x00" in n.value:
-                return "leaf:nul-dropped"
-        return "syntax:other"
-    d = first_diff(_Norm().visit(src_tree), _Norm().visit(shown_tree))
-    if d is None:
-        return "none"
-    a, b, pa, pb = d
-    if isinstance(a, ast.Tuple) and len(a.elts) == 1 and not isinstance(b, ast.Tuple):
+def classify_root(node: ast.AST, verdict: str) -> str:
+    """kind of failure of a MINIMAL failing expression (all its proper sub-expressions read back)"""
+    if isinstance(node, ast.Constant):
+        return leaf_feature(node) or "leaf:" + type(node.value).__name__ + "-changed"
+    if isinstance(node, ast.Tuple) and len(node.elts) == 1:
         return "tuple:singleton-comma-lost"
-    if isinstance(a, ast.Constant) and isinstance(a.value, (float, complex)) and isinstance(b, ast.Name) \
-            and b.id in ("inf", "infj", "nan", "nanj"):
-        return "leaf:float-overflow-inf"
-    if isinstance(a, ast.Constant) and isinstance(b, ast.Constant):
-        if isinstance(a.value, str) and isinstance(b.value, str):
-            return "leaf:nul-dropped" if "\x00" in a.value else "leaf:str-changed"
-        return "leaf:" + type(a.value).__name__ + "-changed"
-    if isinstance(pa, ast.BinOp) and isinstance(pb, ast.BinOp):
-        # pa = X op1 (Y op2 Z) shown as pb = (X op1 Y) op2 Z ?
-        if isinstance(pa.right, ast.BinOp) and not isinstance(pa.op, ast.Pow) and \
-                PREC_CLASS[type(pa.op)] == PREC_CLASS[type(pa.right.op)] and isinstance(pb.left, ast.BinOp) and \
-                type(pb.left.op) is type(pa.op) and type(pb.op) is type(pa.right.op):
-            return "paren:right-operand-equal-precedence"
-        return "paren:binop-regrouped"
-    if isinstance(a, list) or isinstance(b, list):
-        return "arity:" + type(pa).__name__
-    return "tree:" + type(a).__name__ + "->" + type(b).__name__
+    if isinstance(node, ast.Subscript):
+        sl = node.slice
+        if isinstance(sl, ast.Tuple) and len(sl.elts) == 0:
+            return "tuple:empty-index"
+        if isinstance(sl, ast.Tuple) and len(sl.elts) == 1:
+            return "tuple:singleton-comma-lost"
+    if isinstance(node, ast.BinOp) and not isinstance(node.op, ast.Pow) and isinstance(node.right, ast.BinOp) \
+            and PREC_CLASS[type(node.op)] == PREC_CLASS[type(node.right.op)]:
+        return "paren:right-operand-equal-precedence"
+    f = leaf_feature(node)        # a leaf whose spelling depends on the context (linebreakok, delegated)
+    if f is not None:
+        return f
+    if isinstance(node, DELEGATED):
+        return "delegated:astor"
+    if isinstance(node, ast.Subscript):
+        parts = node.slice.elts if isinstance(node.slice, ast.Tuple) else [node.slice]
+        if any(isinstance(p, ast.Slice) for p in parts):
+            return "delegated:astor"
+    return "other:" + verdict + ":" + type(node).__name__
+
+
+def classify(src: str, cfg: Tuple[int, int, bool], verdict: str) -> str:
+    """signature = kind of the smallest failing sub-expression (ast.unparse of every sub-node, shortest
+    first, through the real colorizer and CPython's parser again)"""
+    key = (src, cfg)
+    if key in _MIN_CACHE:
+        return _MIN_CACHE[key]
+    tree = ast.parse(src, mode="eval").body
+    subs: List[Tuple[int, str, ast.AST]] = []
+    for n in ast.walk(tree):
+        if isinstance(n, ast.expr) and not isinstance(n, (ast.Starred, ast.Slice)):
+            try:
+                u = ast.unparse(n)
+                ast.parse(u, mode="eval")
+            except Exception:
+                continue
+            subs.append((len(u), u, n))
+    subs.sort(key=lambda t: (t[0], t[1]))
+    sig = None
+    for _, u, n in subs:
+        k2 = (u, cfg)
+        if k2 in _MIN_CACHE:
+            if _MIN_CACHE[k2] != "ok":
+                sig = _MIN_CACHE[k2]
+                break
+            continue
+        v, _, _ = readback(u, cfg)
+        if v in ("syntax", "differs") or v.startswith("raise:"):
+            sig = classify_root(ast.parse(u, mode="eval").body, v)
+            _MIN_CACHE[k2] = sig
+            break
+        _MIN_CACHE[k2] = "ok"
+    if sig is None:
+        sig = classify_root(tree, verdict)
+    _MIN_CACHE[key] = sig
+    return sig
+
+
+def strip_cmp(t: str) -> str:
+    return re.sub(r"[\s()]", "", t)
 
 
 def oracle(ctx: Ctx, src: str, src_tree: ast.AST, ans: str, r, cfg: Tuple[int, int, bool]) -> None:
@@ -476,6 +507,12 @@ def oracle(ctx: Ctx, src: str, src_tree: ast.AST, ans: str, r, cfg: Tuple[int, i
     if not r.is_complete:
         if not marker:
             ctx.fail("cut:not-marked", inp, "is_complete is False but the output does not end with the '...' marker")
+        elif cfg[2] is False:
+            # never shortened in the middle: what is shown is the beginning of the uncut text
+            # (closing parentheses of operator groups that were open when the cut happened aside)
+            v, full, _ = readback(src, (0, 0, False))
+            if v != "cut" and not v.startswith("raise:") and not strip_cmp(full).startswith(strip_cmp(text)):
+                ctx.fail("cut:not-a-prefix", inp, f"cut output {text!r} is not the beginning of the full text {full!r}")
         return
     if marker:
         ctx.fail("cut:marker-on-complete", inp, "is_complete is True but a truncation marker is present")
@@ -485,11 +522,10 @@ def oracle(ctx: Ctx, src: str, src_tree: ast.AST, ans: str, r, cfg: Tuple[int, i
         shown_tree = ast.parse(text, mode="eval").body
     except (SyntaxError, ValueError, MemoryError, RecursionError):
         shown_tree = None
-    want = norm_dump(ast.parse(src, mode="eval").body)
-    if shown_tree is not None and norm_dump(shown_tree) == want:
+    if shown_tree is not None and norm_dump(shown_tree) == norm_dump(ast.parse(src, mode="eval").body):
         return
-    sig = classify(ast.parse(src, mode="eval").body, text,
-                   ast.parse(text, mode="eval").body if shown_tree is not None else None)
+    verdict = "syntax" if shown_tree is None else "differs"
+    sig = classify(src, cfg, verdict)
     ctx.fail(sig, inp, f"{src!r} is displayed as {text!r}, which " +
              ("is not a Python expression" if shown_tree is None else "reads back as a different expression"))
 
